@@ -4,7 +4,7 @@ from sxglib import H, unhex, canon, hdrs, add, setup as sxg_setup, oracle_tables
 
 URLS = [b'https://example.com/', b'https://example.com/index.html', b'https://example.com:8443/a/b', b'https://example.com/p%20q?x=1&y=%2F',
         b'https://example.com/%E3%81%82', b'/relative/path', b'rel/x?y', b'https://example.com/a?q', b'http://other.example/', b'https://example.com/very/long/' + b'x' * 40,
-        b'https://example.com/a', b'https://example.com/b', b'https://example.com/c', b'?onlyquery', b'']
+        b'https://example.com/a', b'https://example.com/b', b'https://example.com/c', b'?onlyquery', b'', b'https://Example.COM/Mixed', b'https://example.com', b'https://example.com:8443', b'https://example.com?lang=en']
 HNAMES = [b'content-type', b'content-length', b'x-a', b'etag', b'cache-control', b'vary', b'x-long-header-name-for-testing', b'link']
 
 
@@ -16,6 +16,10 @@ def rand_resp(rng, blen=None):
         v = bytes(rng.choice(b'abc xyz-;=/,"\t') for _ in range(rng.choice([0, 1, 5, 23, 24, 30])))
         add(d, name, v)
         if rng.random() < 0.2: add(d, name, b'two')
+    if rng.random() < 0.25:     # a hand-made http.Header: keys stored as spelled, not in Go's canonical MIME form
+        raw = rng.choice([b'ETag', b'WWW-Authenticate', b'x-request-id', b'content-language', b'DNT', b'X-a', b'CONTENT-TYPE'])
+        if all(n != raw for n, _ in d):
+            d.append((raw, [b'raw-' + raw] + ([b'second'] if rng.random() < 0.3 else [])))
     if blen is None:
         blen = rng.choice([0, 1, 22, 23, 24, 25, 254, 255, 256, 257, 1000])
     return status, d, rbytes(rng, blen)
